@@ -128,7 +128,8 @@ INFO = dict(
                "subclasses of the live tree are listed in the evidence (`alignment_subclasses_live`) and counted when one "
                "is not covered.",
     rule="a case = one history on one alignment object family (class, options, dimension): 1-6 set_target calls drawn "
-         "from 3-5 valid targets (float64 / int64 / float32 arrays, some read-only), wrong-shaped targets, the source "
+         "from 3-5 valid targets (float64 / int64 / float32 arrays, some read-only), wrong-shaped targets (other number of "
+         "points, other dimension, both with the same number of elements), the source "
          "itself and PointClouds sharing an array, copies at random points, calls on copies, pure apply calls, in-place "
          "writes of the caller into target arrays followed by set_target with the very object held, parameter edits "
          "(from_vector_inplace / set_rotation_matrix / compose_before_inplace / compose_after_inplace) in between; or one "
@@ -568,6 +569,8 @@ def gen_case(rng, fam, n_ops=None):
         n = S.shape[0]
     else:
         n = rng.randint(4, 8) if d == 2 else rng.randint(5, 8)
+        if rng.random() < 0.35:
+            n = 6          # (6 points: a wrongly shaped target with the SAME number of elements exists in 2-D and 3-D)
         S = gen_cloud(rng, n, d)
     if mcls == "tps":
         L = tps_system(opts["kernel"], S)
@@ -606,6 +609,11 @@ def gen_case(rng, fam, n_ops=None):
     vals.append(gen_cloud(rng, n, 5 - d))                            # wrong dimension
     dtypes += ["float64", "float64"]
     bad_arrs = [len(vals) - 2, len(vals) - 1]
+    if (n * d) % (5 - d) == 0:
+        # wrong number of points AND wrong dimension, but the same number of elements (6 x 2 <-> 4 x 3, 9 x 2 <-> 6 x 3)
+        vals.append(gen_cloud(rng, n * d // (5 - d), 5 - d))
+        dtypes.append("float64")
+        bad_arrs.append(len(vals) - 1)
     arrs = list(range(len(vals)))
     pcs = list(range(len(vals)))
     src_ok = (not need_rot) or rot_conditioned(S, S)
@@ -938,6 +946,8 @@ def run_case(ctx, case, lines=None, pending=None, count=True):
             i, r = op[1], op[2]
             T = cur_points(r)
             good = T.shape == vals[0].shape
+            if not good and T.size == vals[0].size:
+                ctx.count("ops:wrong-shape-same-element-count")
             same_obj = objs[i].target is pcs[r]
             dig = None
             if not good:
